@@ -57,8 +57,8 @@ def run(R):
     seen = set()
     if obs:
         out, mism, viol, total, cases, meta, dist = obs
-        R.oblige("correspondence: model (variant burn_pre=%s edit_keep=%s) = real msg server / proposal handlers / hooks on %d histories, %d steps"
-                 % (meta.get("burn_reads_supply_before"), meta.get("edit_keeps_amount"), total, dist.get("steps", 0)), not mism,
+        R.oblige("correspondence: model (variant burn_pre=%s edit_keep=%s upsert_skip=%s) = real msg server / proposal handlers / hooks on %d histories, %d steps"
+                 % (meta.get("burn_reads_supply_before"), meta.get("edit_keeps_amount"), meta.get("upsert_hook_skips"), total, dist.get("steps", 0)), not mism,
                  "first mismatching histories: " + json.dumps([cases[i] for i in mism[:2]])[:6000])
         report(R, viol, cases, seen)
         R.samples = [cases[0]["steps"][:3], cases[len(cases) // 2]["steps"][:2]]
